@@ -287,7 +287,37 @@ def check_case(cell, bundle, ctx):
         for nm in ("allclose", "numpy.allclose", "numpy.allclose(generic, momentum)"):
             if nm in extra and extra[nm] != all(r["isclose"]):
                 fail("spelling", f"{nm} gives {extra[nm]} but all(isclose) is {all(r['isclose'])}", "allclose"); return
+    if be in ("numpy", "awkward") and sa == sb:
+        _big_integers(ctx, sa, variant, fail)
     ctx.evaluations -= 1
+
+
+def _big_integers(ctx, sa, variant, fail):
+    """int64 coordinates beyond 2**53 (identifiers, time stamps, fixed-point values): equal exactly when the stored integers are
+    equal, for NumPy, Awkward and mixed pairs, operator and method forms alike"""
+    import awkward as ak
+
+    d = len(sa) + 1
+    big = 2**53
+    RA = [tuple(big + 2 * j + 4 * k for k in range(d)) for j in range(3)]
+    RB = [RA[0], tuple(x + 1 if k == 0 else x for k, x in enumerate(RA[1])), tuple(x + 1 if k == d - 1 else x for k, x in enumerate(RA[2]))]
+    want = [True, False, False]
+    An, Bn = build.np_array(sa, RA, dtype=numpy.int64), build.np_array(sa, RB, dtype=numpy.int64)
+    Aa, Ba = build.ak_flat(sa, RA, dtype=numpy.int64), build.ak_flat(sa, RB, dtype=numpy.int64)
+    forms = {"a == b": lambda a, b: a == b, "a != b": lambda a, b: ~(a != b), "a.equal(b)": lambda a, b: a.equal(b),
+             "a.not_equal(b)": lambda a, b: ~a.not_equal(b), "numpy.equal(a, b)": lambda a, b: numpy.equal(a, b)}
+    for pname, (a, b) in {"numpy, numpy": (An, Bn), "awkward, awkward": (Aa, Ba), "awkward, numpy": (Aa, Bn), "numpy, awkward": (An, Ba)}.items():
+        for fname, f in forms.items():
+            ctx.evaluation()
+            try:
+                got = [bool(x) for x in ak.to_list(f(a, b))]
+            except Exception:  # noqa: BLE001
+                ctx.exclude("big_integer_form_not_supported")
+                continue
+            if got != want:
+                fail("same_system", f"{fname} on int64 operands ({pname}) beyond 2**53 gives {got}; the stored integers are equal in "
+                     f"{want} (a={RA}, b={RB})", "equal" if "not" not in fname and "!=" not in fname else "not_equal")
+                return
 
 
 def describe(cell, case):
